@@ -64,3 +64,22 @@ Definition idx_diff {A : Type} (f g : A -> sx) (l : list A) : sx :=
   let all := (fix go (i : Z) (l : list A) : list sx :=
                 match l with [] => [] | x :: r => if sx_eqb (f x) (g x) then go (i + 1)%Z r else SZ i :: go (i + 1)%Z r end) 0%Z l in
   SL (SZ (Z.of_nat (List.length all)) :: firstn 60 all).
+
+Definition sx_jconv (j : jconv) : sx := match j with JcFunc n => SL [SA "func"; SA n] | JcLambda b => SL [SA "lambda"; SA b] end.
+Definition sx_conv (r : conv_result) : sx :=
+  match r with ConvApply j => SL [SA "apply"; sx_jconv j] | ConvListOfCopy => SL [SA "list(copy(obj))"] | ConvTypeError => SL [SA "TypeError"] end.
+Definition sx_table (t : table) : sx := SL (map (fun kv => SL [SA (fst kv); sx_jconv (snd kv)]) t).
+Definition ALL_PYCL : list pycl := [PcSet; PcFrozenset; PcSetOrdered; PcType; PcBytes; PcListReverseIterator; PcOther].
+(* what the converter the model names does to the sample object of each class, as the harness observes it *)
+Definition sx_conv_effect (r : conv_result) : sx :=
+  SA match r with
+     | ConvApply (JcFunc "list") | ConvApply (JcFunc "sorted") => "list of the members"
+     | ConvApply (JcLambda "x.__name__") => "the class name"
+     | ConvApply (JcLambda "x.decode('utf-8')") => "the text"
+     | ConvApply _ => "other converter"
+     | ConvListOfCopy => "list of the members"
+     | ConvTypeError => "TypeError"
+     end.
+Definition sx_conv_obs (r : conv_result) : sx :=
+  SL [sx_conv_effect r; SA match r with ConvApply (JcFunc n) => n | ConvApply (JcLambda _) => "<lambda>" | _ => "-" end].
+Definition sx_pycl (c : pycl) : sx := SA (pc_class_name c).
